@@ -668,8 +668,13 @@ lzma_index_append(lzma_index *i, const lzma_allocator *allocator,
 	const uint32_t index_list_size_add = lzma_vli_size(unpadded_size)
 			+ lzma_vli_size(uncompressed_size);
 
-	// Check that uncompressed size will not overflow.
-	if (uncompressed_base + uncompressed_size > LZMA_VLI_MAX)
+	// Check that uncompressed size will not overflow. The first check
+	// is for this Stream, the second is for the total of all Streams:
+	// lzma_index_uncompressed_size() and lzma_index_cat() rely on
+	// the total being a valid lzma_vli.
+	if (uncompressed_base + uncompressed_size > LZMA_VLI_MAX
+			|| i->uncompressed_size + uncompressed_size
+				> LZMA_VLI_MAX)
 		return LZMA_DATA_ERROR;
 
 	// Check that the new unpadded sum will not overflow. This is
